@@ -185,7 +185,10 @@ func (this *Allocator) addNodeToPartitions(nodeId uint64) {
 
 	for _, partition := range this.partitions {
 		if this.canModifyPartition(partition) && partition.isUnderReplicated() {
-			partition.proposeAddNode(this.ctx, nodeId)
+			// The proposal is applied by the loop that also feeds this one. Never wait for it without a deadline.
+			ctx, cancelCtx := context.WithTimeout(this.ctx, proposalTimeout)
+			partition.proposeAddNode(ctx, nodeId)
+			cancelCtx()
 		}
 	}
 }
@@ -196,7 +199,10 @@ func (this *Allocator) removeNodeFromPartitions(nodeId uint64) {
 
 	for _, partition := range this.partitions {
 		if this.canModifyPartition(partition) {
-			partition.proposeRemoveNode(this.ctx, nodeId)
+			// The proposal is applied by the loop that also feeds this one. Never wait for it without a deadline.
+			ctx, cancelCtx := context.WithTimeout(this.ctx, proposalTimeout)
+			partition.proposeRemoveNode(ctx, nodeId)
+			cancelCtx()
 		}
 	}
 }
